@@ -18,7 +18,7 @@ from . import common as K
 
 ID = "C15"
 LEVEL = "exploration"
-RULE = ("definitions with >=3 symbols per role and >=2 sensors x >=2 readings, both CSE settings; per definition V "
+RULE = ("definitions with >=3 symbols per role and >=2 sensors x >=2 readings (every third: 9-12 sparsely coupled states), both CSE settings; per definition V "
         "child processes with PYTHONHASHSEED in {0,1,2,3,4,12345,random,...}, independently shuffled declaration "
         "order of every list/dict and container type in {set,list,tuple,frozenset}; digests of header_from_ast / "
         "source_from_ast (EKF and Model generators), files written by cpp.compile_ekf, Model.arglist, "
@@ -38,6 +38,18 @@ SEEDS = ["0", "1", "2", "3", "4", "12345", "random", "777", "31337", "random"]
 
 def defn_for(seed, i):
     rng = gen.rng_for("vf", ID, seed, "defn", i)
+    if i % 3 == 2:
+        # a larger, sparsely coupled filter (9-12 states, each update reads its own state and the one eight places
+        # further in sorted order): few dependencies per row, indices that differ by 8
+        d = gen.program(rng, n_state=(9, 12), n_control=(1, 2), n_calib=(0, 1), n_sensor=(1, 2), n_reading=(1, 2),
+                        depth=1, n_shared=(0, 0), containers=False)
+        names = sorted(d["state"])
+        for j, s_ in enumerate(names):
+            d["model"][s_] = ["add", ["s", s_], ["mul", ["s", d["dt"]], ["sin", ["s", names[(j + 8) % len(names)]]]]]
+        if d["control"]:
+            d["model"][names[0]] = ["add", d["model"][names[0]], ["mul", ["s", d["dt"]], ["s", d["control"][0]]]]
+        d["sparse_ring"] = True
+        return d
     return gen.program(rng, n_state=(3, 5), n_control=(3, 4), n_calib=(3, 4), n_sensor=(2, 3), n_reading=(2, 4),
                        depth=2, n_shared=(1, 2), containers=False)
 
